@@ -500,7 +500,9 @@ Inductive op :=
 | OPrintNull                                (* Printer::printModel(nullptr): returns "" before anything else *)
 | OValidate (maths : list (list xml))       (* Validator::validateModel: the non-empty math strings it reads *)
 | OAnalyse (maths : list (list xml)) (valid : bool)   (* Analyser::analyseModel: validates, then reads the math again *)
-| OResolve (docs : list xml)                (* Importer::resolveImports: the documents parsed during the call *)
+| OResolve (docs : list xml) (maths : list (list xml))
+                                            (* Importer::resolveImports: the documents parsed during the call, then the math strings of
+                                               imported components it re-reads for their cn units (also when the file was cached) *)
 | OFlatten (maths : list (list xml))        (* Importer::flattenModel: the math strings re-read while units are renamed *)
 | OOther                                    (* Generator, Annotator, clone, equals, entity API: no libxml2 call *)
 | OConvert                                  (* a bare XmlNode::convertToString *)
@@ -516,7 +518,7 @@ Definition step (g : bool) (o : op) : bool :=
   | OPrintNull => g
   | OValidate maths => reread g maths
   | OAnalyse maths valid => let g1 := reread g maths in if valid then reread g1 maths else g1
-  | OResolve docs => fold_left (fun g d => snd (parse_model g d)) docs g
+  | OResolve docs maths => reread (fold_left (fun g d => snd (parse_model g d)) docs g) maths
   | OFlatten maths => reread g maths
   | OOther => g
   | OConvert => true
@@ -559,7 +561,7 @@ Definition uses_parse (o : op) : bool :=
   match o with
   | OParse _ | OPrint _ => true
   | OValidate m | OFlatten m | OAnalyse m _ => negb (is_nil m)
-  | OResolve d => negb (is_nil d)
+  | OResolve d m => negb (is_nil d) || negb (is_nil m)
   | _ => false
   end.
 Definition uses_dtd (o : op) : bool :=
